@@ -72,7 +72,7 @@ def strace_observe(k=2):
         env = dict(os.environ, PYTHONDONTWRITEBYTECODE="1")
         env.pop("PYTHONPATH", None)
         p = subprocess.run(["strace", "-f", "-e", "trace=getrandom,read,openat,open,write,close", "-s", "48", "-o", out,
-                            sys.executable, script], capture_output=True, text=True, timeout=600, env=env)
+                            sys.executable] + (["-O"] if sys.flags.optimize else []) + [script], capture_output=True, text=True, timeout=600, env=env)
         if p.returncode != 0 or not os.path.exists(out):
             return None, "strace failed rc=%s: %s" % (p.returncode, (p.stderr or "")[-300:])
         results = []
@@ -182,7 +182,7 @@ def judge_import_fault(ctx, case):
         env = dict(os.environ, PYTHONDONTWRITEBYTECODE="1", PYTHONHASHSEED="0")
         env.pop("PYTHONPATH", None)
         try:
-            p = subprocess.run([sys.executable, script], capture_output=True, text=True, timeout=300, env=env)
+            p = subprocess.run([sys.executable] + (["-O"] if sys.flags.optimize else []) + [script], capture_output=True, text=True, timeout=300, env=env)
         except subprocess.TimeoutExpired:
             ctx.note_inconclusive("import-fault child timed out (%s)" % case)
             return None
